@@ -1,0 +1,86 @@
+//go:build verif
+
+// Contracts for contract-based deductive verification (govc, /verif).
+// This file contains comments only; it adds no code to the package.
+
+package accounting
+
+//@ opaque github.com/gauss-project/aurorafs/pkg/boson.Address as Addr
+
+//@ # the unpaid balance of a peer is read and written only under the peer record's lock
+//@ guarded accountingPeer: unPaidTraffic for C32
+
+//@ # ---- the settlement layer, seen from accounting (assumed contracts) ---------------------------
+//@ # ghost: what the settlement layer last reported / was told
+//@ ghost served int
+//@ ghost available int
+//@ ghost chansends int
+//@ extern func (github.com/gauss-project/aurorafs/pkg/settlement.Interface).TransferTraffic
+//@   assigns ghost served
+//@   ensures err == nil ==> traffic != nil && bigval(traffic) == served
+//@ extern func (github.com/gauss-project/aurorafs/pkg/settlement.Interface).RetrieveTraffic
+//@   ensures err == nil ==> traffic != nil && bigval(traffic) >= 0
+//@   assigns nothing
+//@ extern func (github.com/gauss-project/aurorafs/pkg/settlement.Interface).AvailableBalance
+//@   assigns ghost available
+//@   ensures result1 == nil ==> result0 != nil && bigval(result0) == available
+//@ extern func (github.com/gauss-project/aurorafs/pkg/settlement.Interface).PutRetrieveTraffic
+//@   assigns nothing
+//@ extern func (github.com/gauss-project/aurorafs/pkg/settlement.Interface).PutTransferTraffic
+//@   assigns nothing
+
+//@ # the record of a peer
+//@ spec func recOf(a *Accounting, peer boson.Address) *accountingPeer = a.accountingPeers[pure("(github.com/gauss-project/aurorafs/pkg/boson.Address).String", peer)]
+//@ # well-formed peer table: every record has its two numbers, and the unpaid balance is not negative
+//@ spec func acctOK(a *Accounting) bool = a.accountingPeers != nil && a.settlement != nil && a.paymentThreshold != nil && a.paymentTolerance != nil && a.logger != nil && a.metrics.AccountingDisconnectsCount != nil && (forall k string :: present(a.accountingPeers, k) ==> a.accountingPeers[k] != nil && a.accountingPeers[k].unPaidTraffic != nil && a.accountingPeers[k].paymentThreshold != nil && bigval(a.accountingPeers[k].unPaidTraffic) >= 0)
+
+//@ func (*Accounting).getAccountingPeer
+//@   property C32
+//@   requires acctOK(a)
+//@   let rec0 = recOf(a, peer)
+//@   let unpaid0 = ite(recOf(a, peer) == nil, 0, bigval(recOf(a, peer).unPaidTraffic))
+//@   ensures found: result1 == nil ==> result0 != nil && result0 == recOf(a, peer) && result0.unPaidTraffic != nil && result0.paymentThreshold != nil && bigval(result0.unPaidTraffic) >= 0
+//@   ensures existing-record-untouched: rec0 != nil ==> result1 == nil && result0 == rec0 && bigval(rec0.unPaidTraffic) == unpaid0
+//@   ensures failed-adds-nothing: result1 != nil ==> recOf(a, peer) == rec0
+//@   ensures table-stays-well-formed: acctOK(a)
+//@   ensures others-untouched: forall k string :: k != pure("(github.com/gauss-project/aurorafs/pkg/boson.Address).String", peer) ==> (present(a.accountingPeers, k) <==> old(present(a.accountingPeers, k))) && a.accountingPeers[k] == old(a.accountingPeers[k])
+
+//@ func (*Accounting).Credit
+//@   property C32
+//@   requires acctOK(a)
+//@   let rec0 = recOf(a, peer)
+//@   let unpaid0 = ite(recOf(a, peer) == nil, 0, bigval(recOf(a, peer).unPaidTraffic))
+//@   ensures credited-exactly: result == nil && rec0 != nil ==> bigval(recOf(a, peer).unPaidTraffic) == unpaid0 + traffic
+//@   ensures never-negative: recOf(a, peer) != nil ==> bigval(recOf(a, peer).unPaidTraffic) >= 0
+//@   ensures payment-requested-at-threshold: result == nil ==> ((chansends == old(chansends) + 1) <==> bigval(recOf(a, peer).unPaidTraffic) >= bigval(recOf(a, peer).paymentThreshold))
+//@   ensures at-most-one-request: chansends == old(chansends) || chansends == old(chansends) + 1
+//@   ensures table-stays-well-formed: acctOK(a)
+//@   callassert Interface.PutRetrieveTraffic recorded-under-the-peer-lock: locked(recOf(a, peer)) && bigval($traffic) == traffic
+
+//@ func (*Accounting).NotifyPayment
+//@   property C32
+//@   requires acctOK(a) && traffic != nil
+//@   let rec0 = recOf(a, peer)
+//@   let unpaid0 = ite(recOf(a, peer) == nil, 0, bigval(recOf(a, peer).unPaidTraffic))
+//@   let paid = bigval(traffic)
+//@   ensures payment-subtracted-clamped: result == nil && rec0 != nil ==> bigval(recOf(a, peer).unPaidTraffic) == ite(unpaid0 <= 0, unpaid0, max(0, unpaid0 - paid))
+//@   ensures never-negative: recOf(a, peer) != nil ==> bigval(recOf(a, peer).unPaidTraffic) >= 0
+//@   ensures table-stays-well-formed: acctOK(a)
+//@   ensures no-payment-request: chansends == old(chansends)
+
+//@ func (*Accounting).Debit
+//@   property C32
+//@   requires acctOK(a)
+//@   ensures refused-at-tolerance: result == nil ==> bigval(a.paymentTolerance) > served
+//@   ensures unpaid-untouched: old(recOf(a, peer)) != nil ==> recOf(a, peer) == old(recOf(a, peer)) && bigval(recOf(a, peer).unPaidTraffic) == old(bigval(recOf(a, peer).unPaidTraffic))
+//@   ensures table-stays-well-formed: acctOK(a)
+//@   callassert Interface.TransferTraffic served-traffic-read-under-the-peer-lock: locked(recOf(a, peer))
+//@   callassert Interface.PutTransferTraffic recorded-only-below-tolerance: locked(recOf(a, peer)) && bigval(a.paymentTolerance) > served && bigval($traffic) == traffic
+
+//@ func (*Accounting).Reserve
+//@   property C32
+//@   requires acctOK(a)
+//@   let unpaid0 = ite(recOf(a, peer) == nil, 0, bigval(recOf(a, peer).unPaidTraffic))
+//@   ensures reserved-only-if-covered: err == nil && old(recOf(a, peer)) != nil ==> available >= unpaid0 + traffic
+//@   ensures unpaid-untouched: old(recOf(a, peer)) != nil ==> recOf(a, peer) == old(recOf(a, peer)) && bigval(recOf(a, peer).unPaidTraffic) == unpaid0
+//@   ensures table-stays-well-formed: acctOK(a)
